@@ -24,9 +24,12 @@ import (
 	"fmt"
 	"io"
 	mrand "math/rand"
+	"os"
 	"runtime"
 	"sort"
+	"strings"
 	"sync"
+	"sync/atomic"
 	"testing"
 	"testing/synctest"
 	"time"
@@ -45,7 +48,7 @@ import (
 )
 
 const header = `From Coq Require Import ZArith List. Import ListNotations.
-From V Require Import Scanner.FetchModel Scanner.FetchCase.
+From V Require Import Scanner.FetchModel Scanner.ConsumeModel Scanner.FetchCase.
 Local Open Scope Z_scope.
 `
 
@@ -87,6 +90,10 @@ type spec struct {
 	resp       map[int64][]rspec
 	stopAtReq  int    // Fetcher.Stop() during the n-th GetRawEntries (0 = never)
 	cancelReq  int    // cancel the caller's context during the n-th GetRawEntries
+	// scan only: cancel the caller's context from the consumer side, in the middle of a batch that is being
+	// handed to the matcher workers: during the n-th evaluation of the matcher / the n-th found callback
+	cancelAtMatch int
+	cancelAtFound int
 	endAction  string // continuous mode: "stop" | "cancel" once the tree-head script is used up
 	tag        string
 	// scan only
@@ -184,18 +191,27 @@ func classCoq(c string, m bool) string {
 	return lib.Pair("CBad", lib.Bool(m))
 }
 
-type certMatcher struct{ sel map[string]bool }
+type certMatcher struct {
+	sel  map[string]bool
+	hook func()
+}
 
 func (m certMatcher) CertificateMatches(c *x509.Certificate) bool {
+	m.hook()
 	return m.sel[c.SerialNumber.String()]
 }
 func (m certMatcher) PrecertificateMatches(p *ct.Precertificate) bool {
+	m.hook()
 	return m.sel[p.TBSCertificate.SerialNumber.String()]
 }
 
-type leafMatcher struct{ sel map[string]bool }
+type leafMatcher struct {
+	sel  map[string]bool
+	hook func()
+}
 
 func (m leafMatcher) Matches(l *ct.LeafEntry) bool {
+	m.hook()
 	return m.sel[string(l.LeafInput)+"|"+string(l.ExtraData)]
 }
 
@@ -225,6 +241,37 @@ type fakeLog struct {
 	prng      *mrand.Rand
 	pending   []pendCall
 	open      bool
+	// termination watchdogs
+	cancelledAt time.Time // virtual instant of the scripted cancellation (zero: none)
+	cancelWhere string    // what the implementation was doing when its context was cancelled
+	nmatch      int       // matcher evaluations so far
+	nfound      int       // found callbacks so far
+	gateInst    time.Time // calls into the harness at the current instant of virtual time
+	gateCalls   int
+}
+
+// instBudget: calls into the scripted log / the callbacks at ONE instant of virtual time.  A scripted case
+// causes a few hundred at most (every request and callback of a run without errors happens at instant 0);
+// more means a loop that neither pauses nor makes progress.
+const instBudget = 5000
+
+// scriptedCancel cancels the caller's context on behalf of the case's script (l.mu held).
+func (l *fakeLog) scriptedCancel(where string) {
+	l.ev("ECancel", "cancel")
+	if l.cancelledAt.IsZero() {
+		l.cancelledAt, l.cancelWhere = time.Now(), where
+	}
+	l.cancel()
+}
+
+// matchHook is called by the case's matcher for every entry it is asked about (on a matcher worker).
+func (l *fakeLog) matchHook() {
+	l.mu.Lock()
+	defer l.mu.Unlock()
+	l.nmatch++
+	if l.sp.cancelAtMatch == l.nmatch {
+		l.scriptedCancel(fmt.Sprintf("matcher evaluation %d", l.nmatch))
+	}
 }
 
 type deliv struct {
@@ -252,7 +299,19 @@ type pendCall struct {
 // gate blocks the calling goroutine until the controller releases it.
 func (l *fakeLog) gate(kind string, a, b int64) {
 	l.mu.Lock()
-	if l.open {
+	if now := time.Now(); !now.Equal(l.gateInst) {
+		l.gateInst, l.gateCalls = now, 0
+	}
+	l.gateCalls++
+	if l.gateCalls > instBudget && !l.storm {
+		l.storm = true
+		if len(l.evCoq) > 300 {
+			l.evCoq, l.evJSON = l.evCoq[:300], l.evJSON[:300]
+		}
+		l.ev("EBad", fmt.Sprintf("call-storm: %d calls at one instant of virtual time, the last one %s(%d,%d)", l.gateCalls-1, kind, a, b))
+		l.cancel()
+	}
+	if l.open || l.storm {
 		l.mu.Unlock()
 		return
 	}
@@ -309,8 +368,7 @@ func (l *fakeLog) GetSTH(ctx context.Context) (*ct.SignedTreeHead, error) {
 			l.ev("EStop", "stop")
 			l.stop()
 		default:
-			l.ev("ECancel", "cancel")
-			l.cancel()
+			l.scriptedCancel(fmt.Sprintf("get-sth call %d", l.sthCalls))
 		}
 	}
 	if l.lastSize > l.published {
@@ -350,8 +408,7 @@ func (l *fakeLog) GetRawEntries(ctx context.Context, start, end int64) (*ct.GetE
 		l.stop()
 	}
 	if l.sp.cancelReq == l.nreq {
-		l.ev("ECancel", "cancel")
-		l.cancel()
+		l.scriptedCancel(fmt.Sprintf("get-entries request %d (%d-%d)", l.nreq, start, end))
 	}
 	rs := rspec{kind: rFull}
 	if sc := l.sp.resp[start]; l.attempts[start] < len(sc) {
@@ -456,6 +513,10 @@ func (l *fakeLog) foundCb(kind string, keyOf map[string]int) func(*ct.RawLogEntr
 			k = "KPrecert"
 		}
 		l.ev(fmt.Sprintf("EFound %s %s %s", k, lib.Z(r.Index), lib.Z(int64(item))), fmt.Sprintf("found-%s:%d", kind, r.Index))
+		l.nfound++
+		if l.sp.cancelAtFound == l.nfound {
+			l.scriptedCancel(fmt.Sprintf("found callback %d (index %d)", l.nfound, r.Index))
+		}
 	}
 }
 
@@ -464,14 +525,30 @@ func (l *fakeLog) foundCb(kind string, keyOf map[string]int) func(*ct.RawLogEntr
 type result struct {
 	retOK   bool
 	retVal  int64
-	hang    bool
+	hang    bool   // no return by the horizon of virtual time
+	stuck   bool   // ... and none either after the harness cancelled the context, called Stop and opened every gate
+	hangWhy string // which watchdog, at what virtual time
 	panicV  interface{}
 	log     *fakeLog
 	coqLog  []int64
 	classes []string
 }
 
-func runCase(t *testing.T, sp *spec, seed int64) *result {
+// Termination is observed, never assumed.  A call of Fetcher.Run / Scanner.ScanLog that does not come back
+// is the outcome "hang" of its case (EBad in the event log, a failing verdict of the direct oracle), found by
+//  (1) the virtual-time horizon: 72 h after the start, and 2 h after a cancellation the case's script
+//      issued (from then on nothing the call waits for can take time: back-offs and the generator's pause
+//      select on the context), with every goroutine of the bubble blocked and no call waiting at a gate;
+//  (2) counters of calls into the scripted log: more than 3000 requests in all or more than instBudget
+//      calls at one instant of virtual time (a loop that does not pause) end the case the same way;
+//  (3) when the call ignores even the harness's own cancel + Stop with all gates open (stuck), the bubble
+//      cannot be waited for: the bubble function returns and synctest reports the goroutines left behind
+//      as "deadlock" (go1.26 stops the bubble's clock once its main goroutine has exited, so this also holds
+//      with the scanner's throughput ticker still armed); the report is recovered here and the run goes on
+//      with the next case.  Should a bubble not end within 3 s of wall-clock time all the same, the case is
+//      recorded, the cases gathered so far are written and the process ends (bail);
+//  (4) a wall-clock timer outside the bubble, for a spin that never calls the harness (bail as well).
+func runCase(t *testing.T, sp *spec, seed int64, bail func(res *result)) *result {
 	res := &result{}
 	r := mrand.New(mrand.NewSource(seed))
 	l := &fakeLog{sp: sp, tokOf: map[string]int64{}, attempts: map[int64]int{}, used: map[string]bool{}}
@@ -505,10 +582,12 @@ func runCase(t *testing.T, sp *spec, seed int64) *result {
 	res.log, res.coqLog = l, l.tokens
 	l.prng = mrand.New(mrand.NewSource(seed ^ 0x5deece66d))
 
-	synctest.Test(t, func(t *testing.T) {
+	var stuckFlag atomic.Bool
+	run := func(t *testing.T) {
 		ctx, cancel := context.WithCancel(context.Background())
 		defer cancel()
 		l.cancel = cancel
+		t0 := time.Now()
 		done := make(chan struct{})
 		fo := scanner.FetcherOptions{BatchSize: sp.batch, ParallelFetch: sp.workers, StartIndex: sp.start, EndIndex: sp.end, Continuous: sp.cont}
 		if sp.scan {
@@ -521,13 +600,13 @@ func runCase(t *testing.T, sp *spec, seed int64) *result {
 						sel[p.serial] = sp.mask[i]
 					}
 				}
-				so.Matcher = certMatcher{sel}
+				so.Matcher = certMatcher{sel, l.matchHook}
 			case "leaf":
 				sel := map[string]bool{}
 				for i, p := range pool {
 					sel[string(p.leaf.LeafInput)+"|"+string(p.leaf.ExtraData)] = sp.mask[i]
 				}
-				so.Matcher = leafMatcher{sel}
+				so.Matcher = leafMatcher{sel, l.matchHook}
 			}
 			l.stop = cancel // the Scanner does not expose its Fetcher: only cancellation
 			s := scanner.NewScanner(l, so)
@@ -564,8 +643,15 @@ func runCase(t *testing.T, sp *spec, seed int64) *result {
 			if l.releaseOne() {
 				continue
 			}
-			if time.Now().After(deadline) {
-				res.hang = true
+			dl, why := deadline, "72h0m0s of virtual time after the start"
+			l.mu.Lock()
+			if !l.cancelledAt.IsZero() && l.cancelledAt.Add(postCancelHorizon).Before(dl) {
+				dl = l.cancelledAt.Add(postCancelHorizon)
+				why = fmt.Sprintf("%s of virtual time after its context was cancelled (%s after the start, during %s)", postCancelHorizon, l.cancelledAt.Sub(t0), l.cancelWhere)
+			}
+			l.mu.Unlock()
+			if time.Now().After(dl) {
+				res.hang, res.hangWhy = true, "no return "+why+"; every goroutine is blocked and no call is waiting at a gate"
 				break
 			}
 			time.Sleep(500 * time.Millisecond) // nobody is waiting for us: let the back-off timers run
@@ -580,13 +666,62 @@ func runCase(t *testing.T, sp *spec, seed int64) *result {
 			select {
 			case <-done:
 			case <-time.After(time.Hour):
-				panic("c16: implementation does not return even after cancellation")
+				// watchdog (3): not a harness failure - the call is stuck for good
+				res.stuck = true
+				res.hangWhy += "; no return either within 1h0m0s after the harness cancelled the context, called Stop and opened every gate"
+				l.mu.Lock() // (orders everything the blocked goroutines recorded before what follows)
+				l.mu.Unlock()
+				stuckFlag.Store(true)
+				return
 			}
 		}
 		time.Sleep(5 * time.Minute) // let abandoned timers and the generator goroutine finish inside the bubble
-	})
-	return res
+	}
+	// the bubble runs on a goroutine of its own so that this one keeps a wall-clock view of it
+	fin := make(chan interface{}, 1)
+	go func() {
+		defer func() { fin <- recover() }()
+		synctest.Test(t, run)
+	}()
+	wall0 := time.Now()
+	var stuckSince time.Time
+	tick := time.NewTicker(20 * time.Millisecond)
+	defer tick.Stop()
+	for {
+		select {
+		case p := <-fin:
+			if p != nil {
+				msg := fmt.Sprint(p)
+				if !(res.stuck && strings.HasPrefix(msg, "deadlock:")) {
+					panic(p) // a fault of the harness itself
+				}
+				res.hangWhy += "; synctest: " + strings.SplitN(msg, "\n", 2)[0]
+			}
+			return res
+		case <-tick.C:
+			if stuckFlag.Load() {
+				if stuckSince.IsZero() {
+					stuckSince = time.Now()
+				}
+				if time.Since(stuckSince) > 3*time.Second {
+					res.hangWhy += "; the bubble of the call does not end: the harness stops here"
+					bail(res)
+				}
+			} else if time.Since(wall0) > wallLimit {
+				// watchdog (4): nobody calls the harness and virtual time does not advance
+				l.mu.Lock() // kept: nothing may be recorded any more
+				r2 := &result{hang: true, stuck: true, log: l, coqLog: res.coqLog,
+					hangWhy: fmt.Sprintf("no return within %s of wall-clock time while nothing calls the scripted log (a loop that neither pauses nor makes a request)", wallLimit)}
+				bail(r2)
+			}
+		}
+	}
 }
+
+const (
+	postCancelHorizon = 2 * time.Hour
+	wallLimit         = 150 * time.Second
+)
 
 // ---------------------------------------------------------------- generators
 
@@ -774,6 +909,55 @@ func genScan(r *mrand.Rand) *spec {
 	return sp
 }
 
+// genScanCancel: a scan whose context is cancelled while a batch is on its way from a fetch worker to the
+// matcher workers: few matcher workers (1..3), an entries buffer smaller than the batch (0, 1, 2 - now
+// and then larger), batches of 3..40 entries, and the cancellation issued from the consumer side - during
+// the k-th evaluation of the matcher or the k-th found callback, k anywhere in the range, i.e. mostly in
+// the middle of a batch - or during a get-entries request of another fetch worker.  What the property
+// promises then: ScanLog returns; nothing is reported twice, outside the range or as the wrong kind.
+func genScanCancel(r *mrand.Rand) *spec {
+	sp := &spec{scan: true, tag: "scan-cancel-mid-batch"}
+	sp.batch = pick(r, 3, 4, 5, 8, 8, 13, 16, 40, 1000)
+	sp.workers = pick(r, 1, 1, 2, 3)
+	sp.matchers = pick(r, 1, 1, 2, 3)
+	sp.buffer = pick(r, 0, 0, 0, 1, 1, 2, 2, 5, 50)
+	size0 := int64(pick(r, 5, 9, 16, 25, 40, 57))
+	if r.Intn(4) == 0 {
+		sp.start = r.Int63n(size0 / 2)
+	}
+	sp.end = int64(pick(r, 0, 0, 0, int(size0), int(size0)-1))
+	sp.sth = []sthStep{{size: size0}}
+	sp.logLen = int(size0)
+	sp.mk = []string{"cert", "leaf"}[r.Intn(2)] // the repository's own MatchAll (mk "nil") has no hook for the harness
+	sp.precertOnly = r.Intn(5) == 0
+	n := int(size0 - sp.start)
+	switch r.Intn(5) {
+	case 0, 1:
+		sp.cancelAtMatch = 1 + r.Intn(n)
+	case 2:
+		sp.cancelAtFound = 1 + r.Intn(n/2+1)
+	case 3:
+		sp.cancelReq = 1 + r.Intn(n/sp.batch+2)
+	default: // at a batch boundary and one entry to either side of it
+		sp.cancelAtMatch = sp.batch*(1+r.Intn(2)) + r.Intn(3) - 1
+	}
+	if r.Intn(6) == 0 && sp.mk == "cert" { // MatchAll after all, cancelled at a found callback
+		sp.mk, sp.cancelAtMatch, sp.cancelReq, sp.cancelAtFound = "nil", 0, 0, 1+r.Intn(n/2+1)
+	}
+	for range pool {
+		sp.mask = append(sp.mask, r.Intn(4) != 0)
+	}
+	for i := 0; i < sp.logLen; i++ {
+		if r.Intn(8) == 0 {
+			sp.logItems = append(sp.logItems, 14+r.Intn(len(pool)-14))
+		} else {
+			sp.logItems = append(sp.logItems, r.Intn(14))
+		}
+	}
+	genResp(r, sp, []float64{0, 0, 0.2}[r.Intn(3)], []float64{0, 0.3, 0.8}[r.Intn(3)], 0)
+	return sp
+}
+
 // boundary cases named in the property (always run first)
 func fixedCases() []*spec {
 	var out []*spec
@@ -902,7 +1086,7 @@ func emit(w *lib.Writer, sp *spec, res *result) {
 	if res.panicV != nil {
 		l.ev("EBad", fmt.Sprintf("panic:%v", res.panicV))
 	} else if res.hang {
-		l.ev("EBad", "hang")
+		l.ev("EBad", "hang: "+res.hangWhy)
 	} else {
 		l.ev(fmt.Sprintf("EReturn %s %s", lib.Bool(res.retOK), lib.Z(res.retVal)), fmt.Sprintf("return:%v:%d", res.retOK, res.retVal))
 	}
@@ -919,7 +1103,12 @@ func emit(w *lib.Writer, sp *spec, res *result) {
 	fail := func(f string, a ...interface{}) {
 		if ok {
 			ok = false
-			note = fmt.Sprintf("%s batch=%d workers=%d start=%d end=%d cont=%v size0=%d: ", sp.tag, sp.batch, sp.workers, sp.start, sp.end, sp.cont, size0) + fmt.Sprintf(f, a...)
+			note = fmt.Sprintf("%s batch=%d workers=%d start=%d end=%d cont=%v size0=%d: ", sp.tag, sp.batch, sp.workers, sp.start, sp.end, sp.cont, size0)
+			if sp.scan {
+				note = fmt.Sprintf("%s batch=%d workers=%d matchers=%d buffer=%d start=%d end=%d cont=%v size0=%d cancel_at(request=%d match=%d found=%d): ", sp.tag, sp.batch, sp.workers,
+					sp.matchers, sp.buffer, sp.start, sp.end, sp.cont, size0, sp.cancelReq, sp.cancelAtMatch, sp.cancelAtFound)
+			}
+			note += fmt.Sprintf(f, a...)
 		}
 	}
 	var idx []int64
@@ -942,8 +1131,14 @@ func emit(w *lib.Writer, sp *spec, res *result) {
 	switch {
 	case res.panicV != nil:
 		fail("panic")
-	case res.hang || l.storm:
-		fail("does not terminate")
+	case res.hang:
+		what := "Fetcher.Run"
+		if sp.scan {
+			what = "Scanner.ScanLog"
+		}
+		fail("%s does not terminate: %s; %d entries delivered", what, res.hangWhy, len(idx))
+	case l.storm:
+		fail("does not terminate: the scripted log is called without end (%d get-entries requests)", l.nreq)
 	case size0 < 0:
 		if res.retOK || len(idx) > 0 {
 			fail("get-sth failed but the run reported success or delivered entries")
@@ -1056,6 +1251,7 @@ func emit(w *lib.Writer, sp *spec, res *result) {
 		"continuous": sp.cont, "tree_sizes": sizes, "answers_by_start_index": script, "stop_at_request": sp.stopAtReq, "cancel_at_request": sp.cancelReq}
 	if sp.scan {
 		in["matcher"], in["precert_only"], in["matchers"], in["buffer"] = sp.mk, sp.precertOnly, sp.matchers, sp.buffer
+		in["cancel_at_matcher_evaluation"], in["cancel_at_found_callback"] = sp.cancelAtMatch, sp.cancelAtFound
 	}
 	tags := []string{"mode:" + sp.tag, fmt.Sprintf("workers:%d", sp.workers)}
 	switch {
@@ -1092,7 +1288,23 @@ func emit(w *lib.Writer, sp *spec, res *result) {
 		}
 	}
 	if sp.scan {
-		tags = append(tags, "matcher:"+sp.mk)
+		tags = append(tags, "matcher:"+sp.mk, fmt.Sprintf("scan:matchers=%d", sp.matchers))
+		switch {
+		case sp.buffer == 0:
+			tags = append(tags, "scan:buffer=0")
+		case sp.buffer < sp.batch:
+			tags = append(tags, "scan:buffer<batch")
+		default:
+			tags = append(tags, "scan:buffer>=batch")
+		}
+		if !l.cancelledAt.IsZero() {
+			// was a batch being handed over when the context was cancelled?  (entries the log has served but
+			// the matcher workers had not yet been asked about)
+			tags = append(tags, "scan:cancelled")
+		}
+	}
+	if res.hang {
+		tags = append(tags, "outcome:hang")
 	}
 	sort.Strings(tags)
 	ev := l.evJSON
@@ -1136,12 +1348,45 @@ func TestHarness(t *testing.T) {
 	for i := 0; i < ns; i++ {
 		specs = append(specs, genScan(r))
 	}
+	// cancellation from the consumer side in the middle of a batch (appended after the older streams so
+	// that their cases keep their seeds)
+	for i, n := 0, lib.Count(150, 1200); i < n; i++ {
+		specs = append(specs, genScanCancel(r))
+	}
 	seeds := make([]int64, len(specs))
 	for i := range seeds {
 		seeds[i] = r.Int63()
 	}
 	for i, sp := range specs {
-		emit(w, sp, runCase(t, sp, seeds[i]))
+		bail := func(res *result) {
+			emit(w, sp, res)
+			w.Close()
+			fmt.Printf("c16: case %d never returns and its bubble cannot be left; wrote %d cases and stopped\n", i, w.Len())
+			os.Exit(0)
+		}
+		emit(w, sp, runCase(t, sp, seeds[i], bail))
+	}
+	// the consumers of the Fetcher: what reaches the destination (consume_test.go)
+	mspecs := fixedMigrate()
+	for i, n := 0, lib.Count(260, 3000); i < n; i++ {
+		mspecs = append(mspecs, genMigrate(r))
+	}
+	for _, sp := range mspecs {
+		emitMigrate(w, sp, runMigrate(t, sp))
+	}
+	// integration.CopyChainGenerator: with /repo fix commits ab03f88 (one FetcherOptions per fetcher) and
+	// b8504d8 (entries logged without a chain) the stream runs in every build, late consumers included
+	// (VERIF_C16_COPIER_LATE=0 switches them off); a late consumer that never receives what the log
+	// published meanwhile fails with the key "copier-late-consumer-static-log:".
+	{
+		_ = raceBuild
+		buildCopyPool()
+		rootsFile := writeRootsFile(t.TempDir())
+		late := os.Getenv("VERIF_C16_COPIER_LATE") != "0"
+		for i, n := 0, lib.Count(60, 600); i < n; i++ {
+			sp := genCopy(r, late)
+			emitCopy(w, sp, runCopy(t, sp, rootsFile))
+		}
 	}
 	w.Close()
 	fmt.Printf("c16: wrote %d cases\n", w.Len())
